@@ -26,14 +26,23 @@ RULE = (
     "of which one moves across directories, or an unrelated new file present, or a second rename round; distinct by "
     "canonical scenario hash."
 )
-ASSUMPTIONS = ["one history (no nested histories), default ignore patterns, file contents pairwise distinct", "one rename step per file between two generations"]
+ASSUMPTIONS = ["all renames of a case stay inside one history (the top one, or one nested child while the command runs on the parent), default ignore patterns, file contents pairwise distinct", "one rename step per file between two generations"]
 BUDGET = {"quick": (200, 4), "thorough": (36000, 16)}
-REQUIRED = ["multi_rename", "cross_dir_move", "unrelated_new", "second_round", "renamed_back", "other_format", "-n", "new_directory", "altered_after"]
+REQUIRED = ["multi_rename", "cross_dir_move", "unrelated_new", "second_round", "renamed_back", "other_format", "-n", "new_directory", "altered_after", "nested_child", "hidden_former_name"]
 
 
 @st.composite
 def _scn(draw):
     tree = draw(gen.trees("full", max_leaves=10, min_top=2))
+    if draw(st.integers(0, 2)) == 0:
+        tree.setdefault(".hidden.mov", "h1")
+        tree.setdefault(".dotdir", {"inner.mov": "h2", "..twodots": "h3"})
+    child = None
+    if draw(st.integers(0, 3)) == 0 and "reel1" not in tree and "notes.txt" not in tree:
+        # a nested history; the renames stay inside it (one history), the parent holds a file with an equal relative name
+        tree["notes.txt"] = "parent notes"
+        tree["reel1"] = {"draft.txt": "child draft", "clip.mov": "child clip", "sub": {"x.mov": "cx"}}
+        child = "reel1"
     files = gen.tree_files(tree)
     if not files:
         tree["only"] = "x"
@@ -42,6 +51,9 @@ def _scn(draw):
     gens = draw(st.lists(gen.formats(2), min_size=1, max_size=3))
     taken = set(files) | set(dirs)
     cur = list(files)
+    if child:
+        cur = [f for f in files if f.startswith(child + "/")]
+        dirs = [d for d in dirs if d == child or d.startswith(child + "/")]
     rounds = []
     for ri in range(draw(st.sampled_from([1, 1, 2]))):
         k = draw(st.integers(1, min(5, len(cur))))
@@ -58,10 +70,10 @@ def _scn(draw):
             srcs = [] if renames else srcs
         for i, src in enumerate(srcs):
             if newdir:
-                d = "nd%d_%d" % (ri, i % 2)
+                d = (child + "/" if child else "") + "nd%d_%d" % (ri, i % 2)  # (with a nested child the moves stay inside it)
             else:
                 d = draw(st.sampled_from(dirs + [posixpath.dirname(src)]))
-            name = draw(st.one_of(st.just(posixpath.basename(src)), gen.names("full")))
+            name = draw(st.one_of(st.just(posixpath.basename(src)), gen.names("full"), st.sampled_from(["notes.txt", ".was_visible", "..dots"])))
             dst = (d + "/" if d else "") + name
             if dst in taken or any(t.startswith(dst + "/") for t in taken):
                 dst = (d + "/" if d else "") + name + ".r%d%d" % (ri, i)
@@ -79,7 +91,7 @@ def _scn(draw):
                 newfiles.append(p)
                 cur.append(p)
         rounds.append({"renames": renames, "new": newfiles, "formats": draw(gen.formats(2)), "n": draw(st.integers(0, 3)) == 0, "newdir": newdir and not back, "back": bool(back and renames)})
-    return {"tree": tree, "gens": gens, "rounds": rounds, "alter": draw(st.integers(0, 9))}
+    return {"tree": tree, "gens": gens, "rounds": rounds, "alter": draw(st.integers(0, 9)), "child": child}
 
 
 def strategy(tier):
@@ -119,6 +131,9 @@ def run_case(scn, ctx):
     with World("c17") as w, World("c17twin") as tw:
         for x in (w, tw):
             x.build("R", tree)
+            if scn.get("child"):
+                res = x.create("R/" + scn["child"], scn["gens"][0])
+                require(res.exc is None and res.exit_code == 0, "setup", res.brief(), res)
             for fm in scn["gens"]:
                 res = x.create("R", fm)
                 require(res.exc is None and res.exit_code == 0, "setup", res.brief(), res)
@@ -138,6 +153,12 @@ def run_case(scn, ctx):
             require(_missing_block(res.output) is None, "dr-none-missing", "create -dr reports missing files: %s\n%s" % (what, res.output[-400:]), res)
             doc = w.read_history("R")[-1][2]
             prev = {r["path"]: r["previous"] for r in doc["records"]}
+            if scn.get("child"):
+                c = scn["child"]
+                cdoc = w.read_history("R/" + c)[-1][2]
+                for r in cdoc["records"]:
+                    prev[c + "/" + r["path"]] = (c + "/" + r["previous"]) if r["previous"] else None
+                feats.add("nested_child")
             want = {dst: src for src, dst in rnd["renames"]}
             for dst, src in want.items():
                 require(dst in prev, "dr-record", "renamed file %r has no record (%s)" % (dst, what), res)
@@ -164,6 +185,8 @@ def run_case(scn, ctx):
                 feats.add("new_directory")
             if rnd.get("back"):
                 feats.add("renamed_back")
+            if any(posixpath.basename(a).startswith(".") or "/." in a for a, b in rnd["renames"]):
+                feats.add("hidden_former_name")
             # twin world
             _apply_round(tw, rnd)
             if last:
